@@ -378,8 +378,54 @@ MvProgs == Flat(Map1(MvRhs, LAMBDA r : <<
       Prog("multi", "define3", RhsDesc(r), <<>>, <<Define(<<"a", "b", "c">>, r), Use("a"), Use("b"), Use("c")>>),
       Prog("multi", "arg:f3", RhsDesc(r), <<>>, <<ExprS(Call(Id("f3"), r))>>) >>))
 
+(* ---------------------------------------------------------------- B6: the life of one local name `a` in one block.
+   A history is a sequence of events on `a`: it is declared (:=, var, const, type), it appears again on the left of a later
+   := together with a NEW name (a redeclaration when `a` is a variable of this block, a declaration of a new `a` in a nested
+   scope), it is assigned (=, ++, op=, receive, inside a closure), it is read (here, in a nested block, in a closure).
+   Every event that introduces a companion name reads it at once (`_ = nj`, a fresh name per position), so the ONLY question
+   left open by a history is about `a` itself: is it a variable, is it in scope, does the := declare something new, has it
+   been READ ("declared and not used" - an assignment or a redeclaration is not a use).  All histories up to the length
+   bound are generated (B2 above lists single statements, where an unused companion masks these questions). *)
+TypeDecl(name) == [k |-> "typedecl", name |-> name]
+NewName(j) == CASE j = 1 -> "n1" [] j = 2 -> "n2" [] j = 3 -> "n3" [] OTHER -> "n4"
+Redecl(a, nj, es) == <<Define(<<a, nj>>, es), Use(nj)>>
+LifeEvents(j) == LET nj == NewName(j) IN <<
+   <<Define(<<"a">>, <<LitI(1)>>)>>,                                              \* a := 1
+   <<Var(<<"a">>, "int", <<>>)>>,                                                  \* var a int
+   Redecl("a", nj, <<LitI(1), LitI(2)>>),                                          \* a, nj := 1, 2; _ = nj
+   Redecl("a", nj, <<Call(Id("f2"), <<>>)>>),                                      \* a, nj := f2(); _ = nj
+   <<Use("a")>>,                                                                   \* _ = a
+   <<Assign(<<Id("a")>>, <<LitI(2)>>)>>,                                           \* a = 2
+   <<Const("a", "", LitI(1))>>,                                                    \* const a = 1
+   <<TypeDecl("a")>>,                                                              \* type a int
+   <<Block(Redecl("a", nj, <<LitI(1), LitI(2)>>) \o <<Use("a")>>)>>,               \* { a, nj := 1, 2; _ = nj; _ = a }   reads the inner a only
+   <<Closure(<<>>, <<Use("a")>>)>>,                                                \* func() { _ = a }()
+   \* ---- thorough tier only from here
+   <<Define(<<nj, "a">>, <<LitI(2), LitI(1)>>), Use(nj)>>,                         \* nj, a := 2, 1; _ = nj
+   Redecl("a", nj, <<LitS, LitI(2)>>),                                             \* a, nj := "s", 2; _ = nj    (a string: only a NEW a can take it)
+   Redecl("a", nj, <<Index(Id("vm"), LitS)>>),                                     \* a, nj := vm["s"]; _ = nj   (comma-ok)
+   <<Block(<<Use("a")>>)>>,                                                        \* { _ = a }
+   <<Block(Redecl("a", nj, <<LitI(1), LitI(2)>>))>>,                               \* { a, nj := 1, 2; _ = nj }   a new a, never read
+   <<IncDec(Id("a"))>>,                                                            \* a++
+   <<OpAssign("+", Id("a"), LitI(1))>>,                                            \* a += 1
+   <<Assign(<<Id("a"), Id("vi")>>, <<LitI(1), LitI(2)>>)>>,                        \* a, vi = 1, 2
+   <<Closure(<<>>, <<Assign(<<Id("a")>>, <<LitI(3)>>)>>)>>,                        \* func() { a = 3 }()
+   <<Closure(<<>>, Redecl("a", nj, <<LitI(1), LitI(2)>>) \o <<Use("a")>>)>>,       \* func() { a, nj := 1, 2; _ = nj; _ = a }()
+   <<IfInit(Define(<<"a", nj>>, <<LitI(1), LitI(2)>>), Id("vb"), <<Use(nj), Use("a")>>)>>,     \* if a, nj := 1, 2; vb { _ = nj; _ = a }
+   <<Select(<<CRecvAsg(<<Id("a")>>, Id("vch"), <<>>)>>)>>,                         \* select { case a = <-vch: }
+   <<Select(<<CRecvDef(<<"a", nj>>, Id("vch"), <<Use(nj), Use("a")>>)>>)>>,        \* select { case a, nj := <-vch: _ = nj; _ = a }
+   <<Var(<<"a", nj>>, "", <<LitI(1), LitI(2)>>), Use(nj)>> >>                      \* var a, nj = 1, 2; _ = nj
+NLifeQuick == 10
+LifeAt(j, m) == SubSeq(LifeEvents(j), 1, m)
+LifeUpTo3(m) == LifeAt(1, m) \o Pairs(LifeAt(1, m), LifeAt(2, m), LAMBDA s, t : s \o t)
+                \o Flat(Map1(LifeAt(1, m), LAMBDA s : Pairs(LifeAt(2, m), LifeAt(3, m), LAMBDA t, u : s \o t \o u)))
+Life4(m) == Flat(Map1(LifeAt(1, m), LAMBDA s : Flat(Map1(LifeAt(2, m), LAMBDA t : Pairs(LifeAt(3, m), LifeAt(4, m), LAMBDA u, v : s \o t \o u \o v)))))
+LifeBodies == IF Tier = 1 THEN LifeUpTo3(NLifeQuick) ELSE LifeUpTo3(Len(LifeEvents(1))) \o Life4(8)
+LifeProgs == Map1(LifeBodies, LAMBDA b : Prog("life", "", NoDesc, <<>>, b))
+
 (* ---------------------------------------------------------------- the case set *)
-Progs == ExprProgs \o TermProgs \o DeclProgs \o ImportProgs \o TopProgs \o ScopeProgs \o CallProgs \o MvProgs
+\* (new families are appended: the ids of the older programs do not change)
+Progs == ExprProgs \o TermProgs \o DeclProgs \o ImportProgs \o TopProgs \o ScopeProgs \o CallProgs \o MvProgs \o LifeProgs
 Verd3(v) == IF v = "ok" THEN "accept" ELSE IF v = "undef" THEN "undef" ELSE "reject"
 \* Progs is bound ONCE by the LET (a top-level reference would re-evaluate the whole sequence each time)
 Cases == LET P == Progs IN
@@ -437,8 +483,16 @@ ReprMonotone == n > 0 => LET p == prog IN
           => Acc([p EXCEPT !.body = <<Var(<<"x">>, "int", <<e>>), Use("x")>>]) = "accept"
 \* an accepted program stays accepted when an unrelated used declaration is prepended; a rejected one stays rejected
 Weakening == n > 0 => LET p == prog IN
-   (p.grp = "decl" \/ (p.grp = "exprctx" /\ p.ctx \in {"varinfer", "if", "stmt", "lhs"}))
+   (p.grp \in {"decl", "life"} \/ (p.grp = "exprctx" /\ p.ctx \in {"varinfer", "if", "stmt", "lhs"}))
       => SameI([p EXCEPT !.body = <<Var(<<"zz">>, "int", <<>>), Use("zz")>> \o @])
+\* an assignment neither declares nor reads: a valid program stays valid when its statements `a = 2` are deleted
+IsPlainAssignA(s) == s.k = "assign" /\ Len(s.lhs) = 1 /\ s.lhs[1].k = "id" /\ s.lhs[1].name = "a"
+AssignIrrelevant == n > 0 => LET p == prog IN
+   (p.grp = "life" /\ AccI = "accept" /\ \E j \in 1..Len(p.body) : IsPlainAssignA(p.body[j]))
+      => Acc([p EXCEPT !.body = SelectSeq(@, LAMBDA s : ~IsPlainAssignA(s))]) = "accept"
+\* an assignment is not a use and repairs nothing: a rejected history stays rejected when `a = 2` is appended
+AssignDoesNotRescue == n > 0 => LET p == prog IN
+   (p.grp = "life" /\ AccI = "reject") => Acc([p EXCEPT !.body = @ \o <<Assign(<<Id("a")>>, <<LitI(2)>>)>>]) # "accept"
 \* a terminating body keeps a function with results well-formed exactly when the body without results is (placement)
 TermPlacement == n > 0 => LET p == prog IN
    (p.grp = "term" /\ p.res # <<>> /\ AccI = "accept") => IsTerm(p.body)
